@@ -508,15 +508,106 @@ const COLLIDING: [(&str, &str); 7] = [
     ("_cache:1Yr4gMUr9vrJbQtrGzybIe7DC", "_cache:1Yr4gMUr95aYMzzrN9jqfN9DJ"),
 ];
 
-/// do the two keys share an index entry of the real `CacheRing`?  On a fresh ring with room for
-/// both: after `put(a)`, `put(b)` the entry of `a` still occupies its slot (the scan lists both) but
-/// the one index entry of the shared hash points at `b`'s slot - `contains(a)` is false.  Keys with
-/// different hashes are both found.
-fn pair_collides(a: &str, b: &str) -> bool {
+/// The hash `CacheRing::hash_key` computes - `FxHasher::default()` of rustc-hash 2.x fed `str::hash`
+/// (`write(bytes)`, then `write_u8(0xff)`) - re-stated here because the harness cannot name the
+/// crate (its Cargo.toml is frozen).  `fx_matches_the_crate` checks the re-statement against the
+/// rustc-hash that is linked into tensor_store, through the one public function that exposes it.
+mod fx {
+    const K: u64 = 0xf135_7aea_2e62_a9c5;
+    const SEED1: u64 = 0x243f_6a88_85a3_08d3;
+    const SEED2: u64 = 0x1319_8a2e_0370_7344;
+    const PREVENT_TRIVIAL_ZERO_COLLAPSE: u64 = 0xa409_3822_299f_31d0;
+    fn multiply_mix(x: u64, y: u64) -> u64 {
+        let full = u128::from(x) * u128::from(y);
+        (full as u64) ^ ((full >> 64) as u64)
+    }
+    fn le(b: &[u8]) -> u64 {
+        let mut x = [0u8; 8];
+        x[..b.len()].copy_from_slice(b);
+        u64::from_le_bytes(x)
+    }
+    pub fn hash_bytes(bytes: &[u8]) -> u64 {
+        let len = bytes.len();
+        let (mut s0, mut s1) = (SEED1, SEED2);
+        if len <= 16 {
+            if len >= 8 {
+                s0 ^= le(&bytes[0..8]);
+                s1 ^= le(&bytes[len - 8..]);
+            } else if len >= 4 {
+                s0 ^= le(&bytes[0..4]);
+                s1 ^= le(&bytes[len - 4..]);
+            } else if len > 0 {
+                s0 ^= u64::from(bytes[0]);
+                s1 ^= (u64::from(bytes[len - 1]) << 8) | u64::from(bytes[len / 2]);
+            }
+        } else {
+            let mut off = 0;
+            while off < len - 16 {
+                let t = multiply_mix(s0 ^ le(&bytes[off..off + 8]), PREVENT_TRIVIAL_ZERO_COLLAPSE ^ le(&bytes[off + 8..off + 16]));
+                s0 = s1;
+                s1 = t;
+                off += 16;
+            }
+            s0 ^= le(&bytes[len - 16..len - 8]);
+            s1 ^= le(&bytes[len - 8..]);
+        }
+        multiply_mix(s0, s1) ^ (len as u64)
+    }
+    fn add(h: u64, i: u64) -> u64 {
+        h.wrapping_add(i).wrapping_mul(K)
+    }
+    /// `let mut h = FxHasher::default(); key.hash(&mut h); h.finish()` for `key: &str`
+    pub fn of_str(key: &str) -> u64 {
+        add(add(0, hash_bytes(key.as_bytes())), 0xff).rotate_left(26)
+    }
+    /// the same for `data: &[u8]` (`write_length_prefix` = `write_usize(len)`, then `write(bytes)`)
+    pub fn of_slice(data: &[u8]) -> u64 {
+        add(add(0, data.len() as u64), hash_bytes(data)).rotate_left(26)
+    }
+}
+
+/// the re-statement `fx` agrees with the crate tensor_store is built with, on byte strings of
+/// every length class of `hash_bytes` (`ChunkHash::from_data` = `FxHasher` over `<[u8]>::hash`)
+fn fx_matches_the_crate() -> bool {
+    let samples: [&[u8]; 7] = [b"", b"a", b"abc", b"abcde", b"0123456789", b"_cache:sess:aafhA0A00000zizOwoOy", b"the quick brown fox jumps over the lazy dog, twice over"];
+    samples.iter().all(|d| tensor_store::ChunkHash::from_data(d).as_u64() == fx::of_slice(d))
+}
+
+/// On a fresh ring with room for both: after `put(a)`, `put(b)` the entry of `a` still occupies its
+/// slot (the scan lists both) but the one index entry of the shared hash points at `b`'s slot -
+/// `contains(a)` is false.  What two keys with one hash look like on the code as it is.
+fn pair_displaces(a: &str, b: &str) -> bool {
     let ring: CacheRing<u8> = CacheRing::with_capacity(8);
     ring.put(a, 1, 1.0, 1);
     ring.put(b, 2, 1.0, 1);
     a != b && !ring.contains(a) && ring.contains(b) && ring.scan_prefix("").len() == 2
+}
+
+/// the real ring treats the two keys as a key->value map treats two keys (what two keys with
+/// DIFFERENT hashes look like, whatever the hash function is)
+fn pair_maplike(a: &str, b: &str) -> bool {
+    let ring: CacheRing<u8> = CacheRing::with_capacity(8);
+    ring.put(a, 1, 1.0, 1);
+    ring.put(b, 2, 1.0, 1);
+    let mut listed = ring.scan_prefix("");
+    listed.sort();
+    let mut both = vec![a.to_string(), b.to_string()];
+    both.sort();
+    let first = ring.get(a) == Some(1) && ring.get(b) == Some(2) && ring.contains(a) && ring.contains(b) && listed == both && ring.len() == 2;
+    first && ring.delete(a) && !ring.contains(a) && ring.get(a).is_none() && ring.get(b) == Some(2) && ring.scan_prefix("") == vec![b.to_string()]
+}
+
+/// Do the two keys share an index entry of the real `CacheRing`?  `fx_ok` (the re-stated hash is the
+/// crate's): they do when their FxHash is equal - UNLESS the ring treats them exactly as a map
+/// treats two keys, which means `CacheRing::hash_key` is no longer FxHash of the string (the pair is
+/// then skipped with a counted note).  Equal hashes and a ring that is not map-like on the pair is
+/// a collision whatever else the ring does with it: the streams run and the oracles judge.  Without
+/// `fx_ok` (another rustc-hash): by the displacement alone.
+fn pair_collides(fx_ok: bool, a: &str, b: &str) -> bool {
+    if fx_ok && fx::of_str(a) == fx::of_str(b) {
+        return a != b && !pair_maplike(a, b);
+    }
+    pair_displaces(a, b)
 }
 
 /// the groups of keys of `progs` that share a hash (pairs of `coll` both of whose keys occur)
@@ -2689,15 +2780,24 @@ fn main() {
     {
         let t_ring = std::time::Instant::now();
         let mut pairs: Vec<(Key, Key)> = Vec::new();
+        let fx_ok = fx_matches_the_crate();
+        ctx.rep.hit(if fx_ok { "collisions:restated_fxhash_equals_the_crates" } else { "collisions:restated_fxhash_differs_from_the_crates" });
+        if !fx_ok {
+            ctx.rep.note("the FxHash re-stated in corr_kv no longer equals the rustc-hash linked into tensor_store (ChunkHash::from_data): pairs of colliding cache keys are recognised by their behaviour on the real ring alone");
+        }
         for (a, b) in COLLIDING {
-            if pair_collides(a, b) {
+            if fx_ok && fx::of_str(a) != fx::of_str(b) {
+                ctx.rep.disagree("collisions.constants", json!({"keys": [a, b]}), "the hard-coded pair does not have one FxHash", "one hash");
+            }
+            if pair_collides(fx_ok, a, b) {
                 pairs.push((Key::of(a), Key::of(b)));
                 ctx.rep.hit("collisions:pair_shares_one_index_entry_of_the_real_ring");
+                ctx.rep.hit(if pair_displaces(a, b) { "collisions:second_put_displaces_the_first_key" } else { "collisions:pair_of_one_hash_neither_displaced_nor_map_like" });
             } else {
                 ctx.rep.hit("collisions:pair_no_longer_collides_skipped");
             }
         }
-        if pair_collides("_cache:1", "_cache:2") || pair_collides("_cache:sess:a", "_cache:sess:b") {
+        if pair_collides(fx_ok, "_cache:1", "_cache:2") || pair_collides(fx_ok, "_cache:sess:a", "_cache:sess:b") {
             ctx.rep.disagree("collisions.control", json!({"keys": ["_cache:1", "_cache:2", "_cache:sess:a", "_cache:sess:b"]}), "two ordinary cache keys share an index entry of the real ring", "distinct hashes");
         }
         if pairs.len() < COLLIDING.len() {
@@ -2774,19 +2874,20 @@ fn main() {
             }
             // every placement of the reader among the writer's steps (the model says which schedules
             // execute as written: a get that misses the index has one step, a hit has two)
-            let total = if hook { 5 } else { 4 };
-            for mask in 0u32..(1 << total) {
-                let sched: Vec<usize> = (0..total).map(|i| ((mask >> i) & 1) as usize).collect();
-                if sched.iter().filter(|t| **t == 0).count() != 3 {
-                    continue;
+            for total in if hook { vec![4usize, 5] } else { vec![4] } {
+                for mask in 0u32..(1 << total) {
+                    let sched: Vec<usize> = (0..total).map(|i| ((mask >> i) & 1) as usize).collect();
+                    if sched.iter().filter(|t| **t == 0).count() != 3 {
+                        continue;
+                    }
+                    let line = ctx.model_line(&race, false, &sched);
+                    let ans = ctx.model.ask(&line);
+                    let steps = ans.split(" | ").find_map(|p| p.strip_prefix("trace ")).map_or(0, |t| t.split(',').count());
+                    if steps != sched.len() || !ans.ends_with("q=1") {
+                        continue;
+                    }
+                    ctx.case("directed.ring.get_vs_slot_reuse", &race, None, Some(&sched), &mut r, true);
                 }
-                let line = ctx.model_line(&race, false, &sched);
-                let ans = ctx.model.ask(&line);
-                let steps = ans.split(" | ").find_map(|p| p.strip_prefix("trace ")).map_or(0, |t| t.split(',').count());
-                if steps != sched.len() || !ans.ends_with("q=1") {
-                    continue;
-                }
-                ctx.case("directed.ring.get_vs_slot_reuse", &race, None, Some(&sched), &mut r, true);
             }
             let neighbours: Vec<(&str, Vec<Vec<Op>>)> = vec![
                 ("reuse_and_return", vec![vec![Op::Put(c1, n(11)), Op::Del(c1), Op::Put(c2, n(12)), Op::Del(c2), Op::Put(c1, n(13))], vec![Op::Get(c1), Op::Get(c1)]]),
@@ -3477,6 +3578,7 @@ fn main() {
         "stress:fresh_key", "stress:key_deleted_before", "stress:fresh_key_durable_store",
         "stress:writers:2", "stress:writers:3", "stress:writers:4", "stress:writers:6", "stress:writers:8",
         "collisions:pair_shares_one_index_entry_of_the_real_ring", "collision:case_with_two_cache_keys_of_one_hash",
+        "collisions:restated_fxhash_equals_the_crates", "collisions:second_put_displaces_the_first_key",
         "oracle:every_get_returned_a_value_written_to_its_own_key", "oracle:history_is_a_sequential_execution_of_the_ring",
         "stress:cache_gets_that_found_a_value", "stress:cache_gets_that_reported_absent",
     ]
